@@ -140,15 +140,27 @@ bool_t zzRandNZMod(word a[], const word mod[], size_t n, gen_i rng, void* rng_st
 bool_t ecMulA(word b[], const word a[], const ec_o* ec, const word d[], size_t m, void* stack)
 {
 	size_t j;
-	REQ(E.nmul == 0, "ecMulA: one call"); REQ(m <= NW, "ecMulA: scalar length");
+	REQ(E.nmul < 2, "ecMulA: at most two calls"); REQ(m <= NW, "ecMulA: scalar length");
 	REQ(FITS(stack, ecMulA_deep(NW, ENV_EC_D, ENV_EC_DEEP, m)), "ecMulA: stack of ecMulA_deep octets inside the state");
-	E.nmul = 1; E.mul_b = b; E.mul_a = a; E.mul_ec = ec; E.mul_m = m;
-	for (j = 0; j < NW; ++j) E.mul_d[j] = j < m ? d[j] : 0;
-	for (j = 0; j < 2 * NW; ++j) E.mul_aval[j] = a[j];
-	E.mul_ret = nondet_int() ? TRUE : FALSE;
+	if (E.nmul == 0)
+	{
+		E.mul_b = b; E.mul_a = a; E.mul_ec = ec; E.mul_m = m;
+		for (j = 0; j < NW; ++j) E.mul_d[j] = j < m ? d[j] : 0;
+		for (j = 0; j < 2 * NW; ++j) E.mul_aval[j] = a[j];
+		E.mul_ret = nondet_int() ? TRUE : FALSE;
+		hv_words(b, 2 * NW);
+		for (j = 0; j < 2 * NW; ++j) E.mul_out[j] = b[j];
+		E.nmul = 1;
+		return E.mul_ret;
+	}
+	E.mul2_b = b; E.mul2_a = a; E.mul2_ec = ec; E.mul2_m = m;
+	for (j = 0; j < NW; ++j) E.mul2_d[j] = j < m ? d[j] : 0;
+	for (j = 0; j < 2 * NW; ++j) E.mul2_aval[j] = a[j];
+	E.mul2_ret = nondet_int() ? TRUE : FALSE;
 	hv_words(b, 2 * NW);
-	for (j = 0; j < 2 * NW; ++j) E.mul_out[j] = b[j];
-	return E.mul_ret;
+	for (j = 0; j < 2 * NW; ++j) E.mul2_out[j] = b[j];
+	E.nmul = 2;
+	return E.mul2_ret;
 }
 bool_t ecAddMulA(word b[], const ec_o* ec, void* stack, size_t k, ...)
 {
@@ -218,16 +230,17 @@ void beltWBLStart(void* state, const octet key[], size_t len)
 void beltWBLStepE(void* buf, size_t count, void* state)
 {
 	int i = E.nwbl; size_t j; octet* b = (octet*)buf;
-	REQ(i < 3, "beltWBLStepE: call count (model bound)"); REQ(count == NO, "beltWBLStepE: 2l bits");
-	E.wbl_count[i] = count;
-	for (j = 0; j < NO; ++j) E.wbl_in[i][j] = b[j];
-	hv_octets(b, NO);
-	if (i == 2)
+	REQ(i < 3, "beltWBLStepE: call count (model bound)"); REQ(count >= 32 && count <= 64, "beltWBLStepE: 32..64 octets in this model");
+	REQ(__CPROVER_w_ok(buf, count), "beltWBLStepE: buffer");
+	E.wbl_count[i] = count; E.wbl_ptr[i] = buf;
+	for (j = 0; j < 64; ++j) E.wbl_in[i][j] = j < count ? b[j] : 0;
+	hv_octets(b, count);
+	if (i == 2 && count == NO)
 	{
 		word w[NW]; size_t k; for (k = 0; k < NW; ++k) w[k] = ((word*)buf)[k];
 		__CPROVER_assume(!zero_(w, NW) && lt_(w, E.q, NW));
 	}
-	for (j = 0; j < NO; ++j) E.wbl_out[i][j] = b[j];
+	for (j = 0; j < 64; ++j) E.wbl_out[i][j] = j < count ? b[j] : 0;
 	E.nwbl = i + 1;
 }
 
